@@ -13,6 +13,7 @@ from domains import KB, KBEval, type_info
 from rules import jit
 from rules.a64sem import Exec
 import os as _os
+from report import memoised
 
 STRICT_FAMILY = bool(_os.environ.get('RXVERIF_STRICT_FAMILY'))
 
@@ -304,6 +305,7 @@ IMMS = (0, 1, 63, 64, 0x7FF, 0x800, 0xFFF, 0x1000, 0x7FFFFFFF, 0x80000000, 0xFFF
 HANDLERS = ('IADD_RS', 'ISUB_R', 'IMUL_R', 'IMULH_R', 'ISMULH_R', 'INEG_R', 'IXOR_R', 'IROR_R', 'IROL_R', 'ISWAP_R')
 
 
+@memoised('A64-HSEM')
 def rule_hsem(ctx, R):
     if STRICT_FAMILY:
         R.note('rule_hsem skipped: RXVERIF_STRICT_FAMILY=1 (emitted-code / executor evaluation on terms switched off, see DESIGN.md 9.2)')
@@ -391,6 +393,7 @@ def run_handler(F, cls, h, ip, d, s, sh, imm, nlit, regmap):
     return [m.get(regmap[i]) for i in range(8)], tr
 
 
+@memoised('A64-SS-HSEM')
 def rule_ss_hsem(ctx, R):
     if STRICT_FAMILY:
         R.note('rule_ss_hsem skipped: RXVERIF_STRICT_FAMILY=1 (emitted-code / executor evaluation on terms switched off, see DESIGN.md 9.2)')
@@ -519,6 +522,7 @@ class MemMachine(Machine):
 MEM_HANDLERS = ('IADD_M', 'ISUB_M', 'IMUL_M', 'IMULH_M', 'ISMULH_M', 'IXOR_M', 'ISTORE')
 
 
+@memoised('A64-MEM-HSEM')
 def rule_mem_hsem(ctx, R):
     if STRICT_FAMILY:
         R.note('rule_mem_hsem skipped: RXVERIF_STRICT_FAMILY=1 (emitted-code / executor evaluation on terms switched off, see DESIGN.md 9.2)')
@@ -606,6 +610,7 @@ def T_eval(x, vals):
 # ---------------------------------------------------------------------------------------------------------------------------
 # CBRANCH
 
+@memoised('A64-CBR-HSEM')
 def rule_cbranch(ctx, R):
     if STRICT_FAMILY:
         R.note('rule_cbranch skipped: RXVERIF_STRICT_FAMILY=1')
